@@ -4,6 +4,7 @@ import ScriggoV.Lemmas.SlotsHtml
 import ScriggoV.Lemmas.SlotsJs
 import ScriggoV.Lemmas.SlotsCss
 import ScriggoV.Lemmas.SlotsUrl
+import ScriggoV.Lemmas.SlotsLexerWitness
 /-! # C06 — autoescaping confines every shown untrusted value to its syntactic slot
 
 **Layer 1** (every escaper keeps its output inside the slot). The reference scanners of the
@@ -18,10 +19,13 @@ showIn* function every site that hands bytes to the writer, with the origin of t
 sink (raw write / escaper / converter / recursion). The theorems evaluate the whole table.
 
 **Layer 2** (the lexer's context is the context a browser is in) is NOT proved here: there is no
-theorem relating `lexer.go`'s context machine to a reference HTML/JS tokenizer. It is covered
-only by the end-to-end oracle of go/props/c06 (real engine output tokenised by x/net/html, a JS
-lexer, a CSS tokenizer, encoding/json, goldmark). The concrete documents on which the lexer's
-context is wrong (DESIGN §8 row 18) are recorded as known findings and replayed there. -/
+positive theorem relating `lexer.go`'s context machine to a reference HTML/JS tokenizer. Only the
+refutation side exists (`script_ctx_agree_false`, on b-c04c21's lexer model: a quote in a regex
+literal, a quote in a template literal, a string ending in an escaped backslash). Agreement is
+covered only by the end-to-end oracle of go/props/c06 (real engine output tokenised by
+x/net/html, a JS lexer, a CSS tokenizer, encoding/json, goldmark). The concrete documents on which
+the lexer's context is wrong (DESIGN §8 row 18 and those found since) are recorded as known
+findings and replayed there. -/
 namespace ScriggoV.Props.C06
 open ScriggoV ScriggoV.Slots ScriggoV.Escape ScriggoV.Dispatch ScriggoV.Gen.ShowDispatch
 
@@ -243,5 +247,20 @@ theorem attr_entities_only_trusted :
 /-- toString returns bytes of the value only for the kind String -/
 theorem toString_val_only_string :
     (toStringTable.filter (fun e => e.2 == .val)).map (·.1) = ["String"] := by decide
+
+/-! ## Layer 2 — refutation only -/
+
+/-- The full statement `ScriptCtxAgree` (for every ASCII script prefix the lexer's context at the
+hole abstracts the ECMAScript lexical state) is false of the lexer model: after
+`var r = /"/; var x = `, after ``var t = `"`; var x = `` and after `var p = "C:\\"; var x = ` the
+model lexer is in context JSString where the reference scanner is in code position. Known findings
+js-regex-literal-quote, js-template-literal, string-escaped-backslash-desync. No `_partial`
+theorem: agreement on a class of documents is NOT proved (end-to-end oracle only). -/
+theorem script_ctx_agree_false : ¬ LexerWitness.ScriptCtxAgree ∧
+    LexerWitness.holeCtxs (LexerWitness.scriptOpen ++ LexerWitness.templateWitness ++ LexerWitness.holeClose)
+      = some [Gen.LexTables.ContextJSString] ∧
+    LexerWitness.holeCtxs (LexerWitness.scriptOpen ++ LexerWitness.backslashWitness ++ LexerWitness.holeClose)
+      = some [Gen.LexTables.ContextJSString] :=
+  ⟨LexerWitness.scriptCtxAgree_false, LexerWitness.templateWitness_ctx.1, LexerWitness.backslashWitness_ctx.1⟩
 
 end ScriggoV.Props.C06
